@@ -28,13 +28,13 @@ func init() {
 		ID: "DET-2",
 		Doc: "nondeterminism-source inventory: every direct callee outside the module of module code reachable from Layout is on the allow-list {math, math/bits, cmp, iter, sort, slices, maps.Clone/Copy, strconv, strings.Builder, fmt (String/SVG only)}; " +
 			"time.Now flows only into the seed of a per-call rand.New; every (*rand.Rand) method call is control-dependent on a value derived solely from Params.GreedyCycleBreakerRandomNodeChoice; maps.Keys/Values/All, math/rand top-level functions, os, runtime, crypto/rand, sync are forbidden",
-		Floor: 10,
+		Floor: 50,
 		Ctl:   []string{"internal__phase1__det2.go.txt"},
 		Run:   runDet2,
 	})
 	register(&Rule{
-		ID: "DET-3",
-		Doc: "order-preserving split: every slice stored into DGraph.Nodes / DGraph.Edges by package connected is the input graph's own slice or is built only by append(acc, x) with x the element of an ascending index range over the same field of the input graph",
+		ID:    "DET-3",
+		Doc:   "order-preserving split: every slice stored into DGraph.Nodes / DGraph.Edges by package connected is the input graph's own slice or is built only by append(acc, x) with x the element of an ascending index range over the same field of the input graph",
 		Floor: 2,
 		Ctl:   []string{"internal__graph__connected__det3.go.txt"},
 		Run:   runDet3,
@@ -105,8 +105,8 @@ func funcFullName(o types.Object) string {
 var commutativeCallees = map[string]string{
 	"maps.Copy": "copies into a map: last-writer-wins only on equal keys, sources are disjoint or equal-valued sets",
 	"(*" + modPath + "/internal/graph.EdgeList).Remove": "removal of distinct elements commutes",
-	modPath + "/internal/monitor.Log":                    "monitor output only; not part of the returned layout",
-	"builtin.delete":                                     "deleting the iteration key",
+	modPath + "/internal/monitor.Log":                   "monitor output only; not part of the returned layout",
+	"builtin.delete":                                    "deleting the iteration key",
 }
 
 func (c *mapRangeCls) rootIdent(e ast.Expr) (*ast.Ident, int) {
